@@ -281,6 +281,26 @@ def ob_route_and_merge(report):
                     direct = [x for x in it if x.kind in ('matchit-insert', 'map')]
                     if r.tag == 'loop-bound' and not rr and nxt == len(rest):
                         continue
+                    if not rr and direct:
+                        # not through route(): the same complete registration done by another helper / in place - pattern, id->service and
+                        # id->path under one fresh id, exactly as route() itself is required to do above
+                        mi2 = [x for x in direct if x.kind == 'matchit-insert']
+                        by2 = {}
+                        for x in direct:
+                            if x.kind == 'map':
+                                by2.setdefault(x.args[0].s, []).append(x)
+                        okd = len(mi2) == 1 and vname(mi2[0].args[0]) == 'router.matchit'
+                        if okd:
+                            rid2 = mi2[0].args[2]
+                            okd = (len(by2.get('router.routes', [])) == 1 and vrepr(by2['router.routes'][0].args[1]) == vrepr(rid2)
+                                   and len(by2.get('router.id2path', [])) == 1 and vrepr(by2['router.id2path'][0].args[1]) == vrepr(rid2)
+                                   and all(vrepr(x.args[2]) == vrepr(rid2) for x in by2.get('router.path2id', []))
+                                   and re.search(r'fresh_id', vrepr(rid2)) is not None)
+                        if not okd:
+                            return viol(ob, [ex, ex2], f'merge neither re-registers a route of the other router through Router::route nor performs a complete registration itself '
+                                        f'({len(direct)} direct table updates: {[repr(x)[:70] for x in direct]}): bookkeeping of the merged router is incomplete', 'merge-reregister',
+                                        path_summary(r), len(res2))
+                        rr = [Event('re-register', 'direct', (None, mi2[0].args[1], by2['router.routes'][0].args[2]))]
                     if len(rr) != 1:
                         return viol(ob, [ex, ex2], f'merge does not re-register a route of the other router through Router::route (found {len(rr)} registrations, '
                                     f'{len(direct)} direct table updates): bookkeeping of the merged router is incomplete', 'merge-reregister', path_summary(r), len(res2))
@@ -288,7 +308,7 @@ def ob_route_and_merge(report):
                     oid = vname(pair.fields[0]) if not isinstance(pair.fields[0], Agg) else str(pair.fields[0].fields[0])
                     if vname(svc) != vname(pair.fields[1]):
                         return viol(ob, [ex, ex2], f'merge registers {vrepr(svc)} instead of the other router\'s (possibly layered) route', 'merge-service', path_summary(r), len(res2))
-                    if not (vname(pth).startswith('other.id2path[') and oid in vname(pth)):
+                    if not ('other.id2path[' in vname(pth) and oid in vname(pth)):      # the stored path itself or a copy/conversion of it
                         return viol(ob, [ex, ex2], f'merge registers the route under {vrepr(pth)}, not under the path the other router stored for its id', 'merge-path', path_summary(r), len(res2))
                     n_it += 1
         if not n_it:
